@@ -519,7 +519,7 @@ def run_impl(case, nonempty=True):
         if exact["own"] or not set(decl) <= set(envs_rows[0]):
             return exact
         _, err = attempt(probes["contains"], mk_params(tp, torch, decl, envs_rows))
-        if err:
+        if err and not err.startswith("timeout"):
             exact["enough"] = False
             exact["enough_err"] = err
         for x in decl:
@@ -527,7 +527,7 @@ def run_impl(case, nonempty=True):
             raised = False
             for nm, fn in probes.items():
                 _, err = attempt(fn, mk_params(tp, torch, less, envs_rows if nm == "contains" else envs_k))
-                if err:
+                if err:        # (a timeout counts as "needed": never an alarm)
                     raised = True
                     break
             if not raised:
@@ -674,10 +674,13 @@ def judge(case, impl, replies, sreplies, smeta, rep):
     sigma = case["sigma"]
     rest = [p for p in case["params"] if p not in sigma]
     call = f"D(**{ {p: float(Fr(val[0])) for p, val in sigma.items()} })"
+    if "call" in errors and errors["call"].startswith("timeout"):
+        rep.count("call-timeout(not judged)")
+        return
     if "call" in errors:
         rep.fail(f"{call} raised {errors['call']}", short(case))
         return
-    if "call2" in errors:
+    if "call2" in errors and not errors["call2"].startswith("timeout"):
         rep.fail(f"repeated evaluation D(**a)(**b) raised {errors['call2']} although {call} works", short(case))
     if mode == "slice":
         judge_slice(case, impl, replies, rep, call)
@@ -713,7 +716,9 @@ def judge(case, impl, replies, sreplies, smeta, rep):
     if impl.get("nv1") is not None and set(impl["nv1"]) & set(sigma):
         rep.fail(f"{call} still declares the fixed variable(s) {sorted(set(impl['nv1']) & set(sigma))} as necessary", short(case))
     # ---------------- membership: model vs E, E vs original
-    if "E" in errors:
+    if "E" in errors and errors["E"].startswith("timeout"):
+        rep.count("membership-timeout(not judged)")
+    elif "E" in errors:
         if all(r.split()[0] == "none" for r in mem):
             rep.count("both-reject")
         elif "ref" not in errors:
@@ -760,7 +765,7 @@ def judge(case, impl, replies, sreplies, smeta, rep):
                 a_, b_, c_, _ = rl.split()
                 if not (a_ == b_ == c_):
                     rep.disagree("model: repeated peval differs from direct evaluation (contradicts peval_peval)", short(case), None, rl)
-    if "E2" in errors and "E" not in errors:
+    if "E2" in errors and "E" not in errors and not errors["E2"].startswith("timeout"):
         rep.fail(f"membership test of the repeated evaluation D(**a)(**b) raised {errors['E2']} while that of {call} works", short(case))
     # ---------------- volume, bounding box: E against the hand-written equivalent S and against D at rho + sigma
     for name in ("volume", "bbox"):
@@ -770,6 +775,9 @@ def judge(case, impl, replies, sreplies, smeta, rep):
             vR, eR = impl.get(f"{name}_{who}"), errors.get(f"{name}_{who}")
             if vE is None and eE is None:
                 continue
+            if eE and eE.startswith("timeout"):
+                rep.count(f"{name}-timeout(not judged)")
+                break
             if eR and eE:
                 rep.count(f"{name}-{who}-both-raise")
             elif eE:
@@ -816,6 +824,9 @@ def judge(case, impl, replies, sreplies, smeta, rep):
     for how, rec in (impl.get("samples") or {}).items():
         if rec.get("err_ref") and rec.get("err_E"):
             rep.count(f"sample-{how}-both-raise")
+            continue
+        if rec.get("err_E") and rec["err_E"].startswith(("timeout", "skipped")):
+            rep.count(f"sample-{how}-timeout(not judged; termination is C01's subject)")
             continue
         if rec.get("err_E"):
             rep.fail(f"{call}.sample_{'random_uniform' if how == 'random' else 'grid'}(n={case['n_sample']}, remaining params) raised {rec['err_E']} "
@@ -889,6 +900,9 @@ def judge_slice(case, impl, replies, rep, call):
             inside_partner = False
     rep.count("slice-inside-partner" if inside_partner else "slice-outside-partner")
     purity(case, impl, rep)
+    if "E" in errors and errors["E"].startswith("timeout"):
+        rep.count("membership-timeout(not judged)")
+        return
     if "E" in errors:
         rep.fail(f"membership test of the sliced product {call} raised {errors['E']}", short(case, point=rows[0][0]))
         return
@@ -1040,6 +1054,8 @@ def user_volume_stream(ctx, rep):
         krest = mk_params(tp, torch, rest, [frs(e) for e in prow])
         ref, e0 = attempt(lambda: flat(torch.as_tensor(D.volume(kfull))))
         E, e1 = attempt(lambda: D(**kwargs_of(torch, frs(sigma), list(sigma))))
+        if e1 and e1.startswith("timeout"):
+            continue
         if e1:
             rep.fail(f"D(**values) raised {e1} on a domain with a user-set volume", desc)
             continue
@@ -1048,6 +1064,8 @@ def user_volume_stream(ctx, rep):
         got, e3 = attempt(lambda: flat(torch.as_tensor(E.volume(krest))))
         if e0:
             rep.count("user-volume:original-raises")
+            continue
+        if e3 and e3.startswith("timeout"):
             continue
         if e3:
             rep.fail(f"D(**values).volume(remaining params) raised {e3}; D.volume(params + values) = {ref} (user-set volume)", desc)
@@ -1060,7 +1078,7 @@ def user_volume_stream(ctx, rep):
             continue
         if E2 is not None:
             got2, e4 = attempt(lambda: flat(torch.as_tensor(E2.volume(krest))))
-            if e4 or not close_lists(got2, ref):
+            if (e4 and not e4.startswith("timeout")) or (not e4 and not close_lists(got2, ref)):
                 rep.fail(f"user-set volume after the repeated evaluation D(**a)(**b): {got2 or e4}, D.volume(params + values) = {ref}", desc)
         a_after, _ = attempt(lambda: flat(torch.as_tensor(D.volume(kfull))))
         if a_after is not None and not close_lists(a_after, ref, 1e-7):
